@@ -59,7 +59,7 @@ class Management:
             self.xknx.task_registry.background(
                 self.xknx.cemi_handler.send_telegram(ack)
             )
-        if conn:
+        if conn and not isinstance(telegram.tpci, TDataBroadcast):
             conn.process(telegram)
             return
         if telegram.tpci.numbered:
